@@ -112,11 +112,16 @@ def gen_case(rng, quick):
             dts.append(d)
         case['dtypes'] = dts
     case['roundtrip'] = p2lib.gen_roundtrips(rng, n)
+    case['rejects'] = p2lib.gen_rejects(rng, n)
     return case
 
 
 def run_case(ctx, case, rng, lines, posts):
     est = p2lib.make(case['spec'])
+    msg = p2lib.grid_complaint(est, case['spec'])
+    if msg:
+        ctx.fail('p2-grid-aliases-caller', msg, small(case))
+        return False, False
     q = [float(t) for t in est.q_desired]
     shape = tuple(case['shape'])
     ncomp = len(case['cols'])
@@ -126,9 +131,19 @@ def run_case(ctx, case, rng, lines, posts):
     trips = {}
     for i, kind in case.get('roundtrip') or []:
         trips.setdefault(i, []).append(kind)
+    rejects = {}
+    for i, kind in case.get('rejects') or []:
+        rejects.setdefault(i, []).append(kind)
     for i in range(n):
         for kind in trips.get(i, []):
             est = p2lib.roundtrip(est, kind)
+        for kind in rejects.get(i, []):
+            msg = p2lib.offer_rejected(est, kind, shape)
+            if msg == 'accepted':
+                return True, adjusted          # not a rejection for this shape: drop the rest of the case
+            if msg:
+                ctx.fail('p2-rejected-observation-changes-state', msg + ' (before observation %d)' % i, small(case))
+                return False, adjusted
         pre = [p2lib.state(est, c if shape else None) for c in range(ncomp)]
         obs = [case['cols'][c][i] for c in range(ncomp)]
         dt = (case.get('dtypes') or ['float64'] * n)[i]
@@ -153,7 +168,7 @@ def run_case(ctx, case, rng, lines, posts):
 
 
 def small(case):
-    return dict(spec=case['spec'], family=case['family'], n=case['n'], shape=case['shape'], dtypes=case.get('dtypes'), roundtrip=case.get('roundtrip'),
+    return dict(spec=case['spec'], family=case['family'], n=case['n'], shape=case['shape'], dtypes=case.get('dtypes'), roundtrip=case.get('roundtrip'), rejects=case.get('rejects'),
                 cols=[c if len(c) <= 40 else c[:40] + ['...(%d more; regenerate with the seed)' % (len(c) - 40)] for c in case['cols']])
 
 
@@ -223,7 +238,39 @@ def long_stream(ctx, lines, posts):
     ctx.count('long_stream_observations', n)
 
 
+def reinit_cases(ctx):
+    """an estimator whose constructor is called again is a new estimator: after a second run it is in the state of a fresh one fed that run"""
+    rng = ctx.rng
+    for _ in range(ctx.scale(12, 80)):
+        spec = p2lib.gen_grid(rng)
+        shape = rng.choice([(), (), (2,)])
+        k = int(np.prod(shape)) if shape else 1
+        mk = lambda vals: (np.array(vals, dtype=float).reshape(shape) if shape else vals[0])     # noqa
+        run1 = [[rng.gauss(50, 9) for _ in range(k)] for _ in range(rng.choice([3, 12, 40]))]
+        run2 = [[rng.gauss(0, 1) for _ in range(k)] for _ in range(rng.choice([1, 4, 9, 25]))]
+        used = p2lib.make(spec)
+        for v in run1:
+            used.accumulate(mk(v))
+        p2lib.reinit(used, spec)
+        fresh = p2lib.make(spec)
+        case = dict(spec=spec, shape=list(shape), reinitialised_after=len(run1), second_run=len(run2))
+        ctx.case(('reinit', str(spec), len(run1), len(run2), shape), len(run2) >= len(fresh.q_desired), sample=case)
+        ctx.count('reinitialised_estimators')
+        bad = None
+        for i, v in enumerate(run2):
+            used.accumulate(mk(v))
+            fresh.accumulate(mk(v))
+            a = [p2lib.state(used, c if shape else None) for c in range(k)]
+            b = [p2lib.state(fresh, c if shape else None) for c in range(k)]
+            if repr(a) != repr(b):
+                bad = 'after observation %d of the second run the re-initialised estimator is in state %s, a fresh one in %s' % (i + 1, a[0], b[0])
+                break
+        if bad:
+            ctx.fail('p2-reinitialised-estimator-keeps-state', bad, case)
+
+
 def check(ctx):
+    reinit_cases(ctx)
     from harness import formulas
     formulas.check_formulas(ctx, ['CDFEstimator._linear', 'CDFEstimator._parabolic'])
     rng = ctx.rng
@@ -246,6 +293,9 @@ def check(ctx):
 
 def replay(ctx, data):
     case = data['case']
+    if 'reinitialised_after' in case:
+        reinit_cases(ctx)
+        return
     if any(isinstance(t, str) for c in case['cols'] for t in c):
         check(ctx)       # the sequence was cut short in the file: regenerate everything under the recorded seed and tier
         return
